@@ -33,7 +33,11 @@ LEVEL.update({
 LEVEL.update({
  "C09": ("The request path's shape is decided on every path: the four dispatch outcomes of handle_raw_message, header-field origins of make_response / FORMERR, the triage table and REFUSED arm, RA = !authoritative_only and recursion iff RD && RA, the 512-byte cut with TC and the TCP length prefix, single send/handle sites outside loops, the section/AA/RCODE map per resolver result, serve loops without exit edges and process::exit confined to start-up. One clause is violated on the pinned tree and recorded as a known finding (referral NS records reach the answer section in authoritative-only mode). Live socket behaviour is declined.", "3/C09"),
 })
+LEVEL.update({
+ "C04": ("Codec agreement is decided as table/sequence equality extracted from the program: the six integer<->enum tables are mutually inverse, match the RFC code points and carry unlisted values through; the writer's and reader's field sequences agree per RDATA variant, for the header bit layout, question and RR prefix, and with an embedded RFC 1035/2782/3596 table; RDLENGTH back-patching, the 14-bit bound on memoised offsets, pointer emission and section counts have the required shapes. Equality decode(encode(m)) == m over all message values is declined.", "3/C04"),
+})
 TECH = {
+ "C04": "custom MIR rules: ARM-TABLE extraction and inversion, SEQ (ordered call sequence per match arm) reader/writer comparison against an RFC layout table, guard dominance with constant bounds",
  "C09": "custom MIR rules: arm tables from edge facts, ORIGIN of stored header fields and sent slices, who-calls, loop exit-edge analysis across spawned closures",
  "C14": "custom MIR rules: typestate via CUT-REACH on feasible paths (scrutinee-consistent reachability), arm tables, ORIGIN of insert arguments",
  "C16": "custom MIR rules: who-constructs / who-writes, guard dominance with named-constant operands, accumulator-definition shapes, derived-impl inventory",
